@@ -633,6 +633,18 @@ def rule_e1(ctx: Ctx, m: SharedModel) -> None:
     if summ is None:
         raise AnalysisError(f"{mesh_f.where}: the way mesh levels are built is not recognised (neither cache.extend(<dict comprehension> for i in range) nor a loop appending one filtered level per step)")
     node0, rng, ivar, src, filters, key, pvar = summ
+    # locals bound before the construction stand for their values (`basis = self.basis`, `first = len(self.cache)`)
+    from ..core import flow_env as _fe, subst_names as _sn
+
+    _env = {k: v for k, v in _fe(mesh_f, node0).items() if k not in (ivar, pvar)}
+
+    def _through(text: str) -> str:
+        try:
+            return unparse(_sn(ast.parse(text, mode="eval").body, _env)) if text and _env else text
+        except SyntaxError:
+            return text
+
+    rng, src, filters = _through(rng), _through(src), [_through(x) for x in filters]
     want = {"range": (rng, f"range(len(self.cache), {lvm} + 1)"), "source": (src, f"Perm.of_length({ivar})"), "filter": (" and ".join(filters), f"{pvar}.avoids(*self.basis)"), "key": (key, pvar)}
     bad = []
     for what_, (got, exp) in want.items():
